@@ -553,6 +553,73 @@ def documented_class(flags, member, precedence):
     return None
 
 
+def _capture_valuations(ctx, crate, clo, field_role, rid):
+    """-> function(set of enabled class tokens) -> {capture name of `clo`: bool}, tabulated from the abstract paths of the function in which the closure chain is built"""
+    chain = [clo]
+    while chain[-1].kind == "closure" and chain[-1].direct_parent and crate.body(chain[-1].direct_parent) is not None and crate.body(chain[-1].direct_parent).kind == "closure":
+        chain.append(crate.body(chain[-1].direct_parent))
+    outer = chain[-1]
+    P = crate.body(outer.direct_parent) if outer.direct_parent else None
+    if P is None or P.kind == "closure":
+        return None
+    names_outer = [c_["name"] for c_ in outer.captures]
+    if any(c_["name"] not in names_outer for c_ in clo.captures):
+        return None
+    recs = []
+
+    def on_call(m, st, name, args, t):
+        for a in args:
+            v = ccp.strip_ref(a)
+            if isinstance(v, ccp.Agg) and v.kind == "closure" and v.label == outer.path:
+                vals = []
+                for f in v.fields:
+                    x = ccp.strip_ref(f)
+                    vals.append(m.resolve(st, x) if x is not None else None)
+                recs.append((dict(st.facts), vals))
+        return None
+    try:
+        ccp.Machine([crate], on_call=on_call, max_leaves=5000).run(P, None)
+    except Exception:
+        return None
+    if not recs:
+        return None
+    me = ccp.Sym(P.locals[1].get("name") or "self")
+    tok_of_field = {f: r[len("class:"):] for f, r in field_role.items()}
+
+    def field_of(v):
+        # self.config.<field>
+        if isinstance(v, ccp.Fld) and v.name in tok_of_field:
+            return v.name
+        return None
+
+    def fn(flags):
+        out = None
+        for facts, vals in recs:
+            okr = True
+            for f, tok in tok_of_field.items():
+                for k, fv in facts.items():
+                    if isinstance(fv, ccp.Const) and isinstance(k, tuple) and k and k[0] == "fld" and k[-1] == f:
+                        if bool(fv.v) != (tok in flags):
+                            okr = False
+            if not okr:
+                continue
+            res = {}
+            for nm, v in zip(names_outer, vals):
+                if isinstance(v, ccp.Const) and isinstance(v.v, bool):
+                    res[nm] = v.v
+                elif field_of(v) is not None:
+                    res[nm] = tok_of_field[field_of(v)] in flags
+                else:
+                    return None
+            if out is not None and out != res:
+                return None
+            out = res
+        if out is None:
+            return None
+        return {c_["name"]: out[c_["name"]] for c_ in clo.captures}
+    return fn
+
+
 def cls1(ctx, prog, crate, roles, rid="CLS-1"):
     """Decide the per-code-point substitution table of the class-conversion closure against the
     documented precedence on every feasible valuation.  Returns predicate -> class assignment or None."""
@@ -567,13 +634,23 @@ def cls1(ctx, prog, crate, roles, rid="CLS-1"):
         return None
     field_role = {f: r for r, f in roles.items() if r.startswith("class:")}
     up_tok = {}
+    derived = []
     for cap, t in zip(clo.captures, ups):
         f = origin_config_field(t)
         if f is None or f not in field_role:
-            ctx.undecided(rid, clo.path, "captured variable %s does not come from a class-conversion setting (%s)" % (cap["name"], local.show(t)), clo.loc())
-            return None
+            derived.append((cap["name"], t))
+            continue
         up_tok[cap["name"]] = field_role[f][len("class:"):]
-    if sorted(up_tok.values()) != sorted(list(NEG.keys()) + list(NEG.values())):
+    capture_fn = None
+    if derived:
+        # some captured variables are *computed* from the settings (e.g. `let known = a || b`): their value per valuation of the six settings is read off the abstract
+        # paths of the enclosing function at the point where the outermost closure is constructed
+        capture_fn = _capture_valuations(ctx, crate, clo, field_role, rid)
+        if capture_fn is None:
+            ctx.undecided(rid, clo.path, "captured variable %s does not come from a class-conversion setting (%s) and its value could not be tabulated"
+                          % (derived[0][0], local.show(derived[0][1])[:80]), clo.loc())
+            return None
+    if not derived and sorted(up_tok.values()) != sorted(list(NEG.keys()) + list(NEG.values())):
         ctx.violation(rid, (clo.path, "captures"), "closure does not read all six conversion settings exactly once: %s" % up_tok, clo.loc())
         return None
     pure_preds = set(preds)
@@ -585,7 +662,7 @@ def cls1(ctx, prog, crate, roles, rid="CLS-1"):
     if bad:
         ctx.undecided(rid, clo.path, "non-returning abstract paths: %s" % ccp.leaves_summary(leaves), clo.loc())
         return None
-    flag_key = {name: ccp.Fld(env, name).key() for name in up_tok}
+    flag_key = {c_["name"]: ccp.Fld(env, c_["name"]).key() for c_ in clo.captures}
     pred_key = {p: ccp.Call(p, [cvar]).key() for p in preds}
     known_keys = set(flag_key.values()) | set(pred_key.values())
     for l in leaves:
@@ -630,15 +707,24 @@ def cls1(ctx, prog, crate, roles, rid="CLS-1"):
     precedence = spec("api")["class_precedence"]
     best = None
     upnames = list(up_tok)
+    all_toks = sorted(list(NEG.keys()) + list(NEG.values()))
     for perm in itertools.permutations(list(NEG.keys())):
         sigma = dict(zip(preds, perm))
         mism = []
         n = 0
-        for bits in itertools.product((False, True), repeat=len(upnames)):
-            flags = {up_tok[nm] for nm, b in zip(upnames, bits) if b}
+        for bits in itertools.product((False, True), repeat=len(upnames) if capture_fn is None else 6):
+            if capture_fn is None:
+                flags = {up_tok[nm] for nm, b in zip(upnames, bits) if b}
+                capvals = dict(zip(upnames, bits))
+            else:
+                flags = {tk for tk, b in zip(all_toks, bits) if b}
+                capvals = capture_fn(flags)
+                if capvals is None:
+                    ctx.undecided(rid, clo.path, "the captured variables could not be evaluated for the settings %s" % sorted(flags), clo.loc())
+                    return None
             for member, example_cp, _cnt in feas:
                 val = {}
-                for nm, b in zip(upnames, bits):
+                for nm, b in capvals.items():
                     val[flag_key[nm]] = b
                 for p in preds:
                     val[pred_key[p]] = member[sigma[p]]
